@@ -201,7 +201,8 @@ def default_of(m, ty):
         idx = m.world.impl_index()
         c = idx.get((b, "Default", "default"))
         if c and m.world.is_derived(b, "Default") is False:
-            return m.run_fn(m.mod.get(c[0]), [])
+            fn = m.mod.get(c[0])
+            return m.run_fn(fn, [], m.world.call_subst(fn.name, ty) or None)
         if c or True:
             return Agg(b, None, [default_of(m, t) for t in m.td.struct_types[b]])
     raise Unsupported("default of " + ty)
